@@ -4,6 +4,11 @@ import json, os
 VERIF = os.path.dirname(os.path.dirname(os.path.abspath(__file__)))
 
 CLAIMS = {
+ "C02": {
+  "text": "Translation validation of the expression rewriter: the real rules (DistributiveOrRewrite, UnnestConjunctionRewrite and the whole ExpressionRewriter::apply_rewrites pipeline) are run natively on an enumerated family of boolean expressions (3 nullable BOOLEAN columns, comparisons of a nullable INT32 column with literals, AND/OR/NOT, depth <= 3); every (before, after) pair is encoded in SMT (Kleene three-valued logic, Int32 as a 32-bit bit-vector with a NULL flag) and z3 decides whether any row distinguishes them - unsat = equivalent for ALL rows. Each satisfying row is replayed by evaluating both expressions with the real ExpressionEvaluator. 10,395 pairs in thorough (2,601 in quick); finds F9 (known finding). The constant-LIKE rewrite is covered by the Kani harnesses c20_like_*_rewrite (run under C20).",
+  "note": "The data quantifier is decided by the solver; the program quantifier is a bounded enumerated family (stated in evidence). Outside: plan-level rules (filter pushdown, column pruning, join reordering, CSE, limit pushdown, scan filters, sort-limit hint), ConstFold beyond what the family exercises, JoinFilterOrRewrite. Disagreements that only exist on rows with NULLs and that the engine's NULL-propagating AND/OR (F8) masks are reported as a note, not as violations.",
+  "design": "§3 C02", "category": "translation_validation", "engine": "tv-z3",
+  "technique": "solver-based translation validation: real rewrite rules executed natively on symbolic-leaf expressions, before/after equivalence over all rows decided by z3 (SMT, QF_BV + Booleans), satisfying rows replayed through the real evaluator"},
  "C03": {
   "text": "Bounded model checking of the operators that carry state across batches: PhysicalLimit::poll_execute (real operator and shared state) over 3 zero-column batches with symbolic row counts and symbolic limit/offset - after every batch the rows emitted equal min(limit, rows seen - offset), never more than the batch holds, Exhausted exactly at the limit; generate_series: the concatenation of calls is the same arithmetic progression whatever the output capacity, complete, and it terminates at the i64 limits. Found and fixed: generate_series overflowing past i64::MAX.",
   "note": "parking_lot slow paths stubbed with panics (sequential harness). Outside: hash vs nested-loop join equivalence, partitioned hash aggregate merge, sort merge queue, partition and thread counts, INSERT/CTAS row counts.",
@@ -62,7 +67,6 @@ CLAIMS = {
   "design": "§3 C08"},
 }
 NOT_APPLICABLE = {
- "C02": "the planned translation-validation engine for the expression rewriter (z3) is not built; only the constant-LIKE rewrite equivalence exists (harnesses tagged C20/C02), which is not enough to claim the property; F9 (DistributiveOrRewrite) is documented in DESIGN.md",
  "C04": "Kani has no threads; the atomic-call schedule harness over ResultStream/Union/Materialize did not leave symbolic execution in the design probe and was not pursued",
  "C14": "MemoryCatalog is built on lock-free scc maps keyed by strings (pointer-rich, concurrent); the row-visibility kernel was a stretch goal not reached",
  "C17": "csv_core builds its DFA in the constructor (unwind >= 257, >15 min symex without reaching the decoder); the rest of the property rests on std float/int parsing",
@@ -104,7 +108,9 @@ def main():
             "add_only": True,
         },
         "engines": [
-            {"name": "kani-overlay", "path": "/verif/check", "serves_properties": sorted(CLAIMS),
+            {"name": "tv-z3", "path": "/verif/tv/engine.py", "serves_properties": ["C02"],
+             "kind_free_text": "translation validation: native driver (tv/verif_tv_driver.rs, copied into the scratch overlay) runs the real rewrite rules; python/z3 decides equivalence; native replay through ExpressionEvaluator"},
+            {"name": "kani-overlay", "path": "/verif/check", "serves_properties": sorted(p for p in CLAIMS if p != "C02"),
              "kind_free_text": "Kani 0.68 (CBMC 6.11, cadical) proof harnesses over the real crate sources copied from /repo on every run; per-harness JSON verdicts; native concrete-playback replay before any VIOLATION"},
         ],
         "checks": checks,
